@@ -580,6 +580,11 @@ def run(ctx):
             ctx.broke("loader", "acceptance condition after parsing a persisted value", ctx.cov["loaders"]["conditions"])
     except Exception as ex:   # a source the translator cannot read is a broken tie
         ctx.broke("translator", "translate/serde_schema.py", repr(ex))
+    try:
+        from translate import execflags
+        execflags.run()          # `planWriteTruncates` (how write_plan opens an existing plan file)
+    except Exception as ex:
+        ctx.broke("translator", "translate/execflags.py", repr(ex))
     # 2 prove -----------------------------------------------------------------------------------------
     proved = ctx.prove("RModel.Props.C17")
     # 3 rebuild ---------------------------------------------------------------------------------------
